@@ -97,6 +97,8 @@ def update_callable(
   # Otherwise, parameter validation logic would complain about argument
   # name not exists.
   new_signature_info = signatures.SignatureInfo(signature=new_signature)
+  old_signature_info = buildable.__signature_info__
+  old_signature = old_signature_info.signature
   object.__setattr__(buildable, '__signature__', new_signature)
   object.__setattr__(buildable, '__signature_info__', new_signature_info)
   if not new_signature_info.has_var_keyword:
@@ -110,6 +112,9 @@ def update_callable(
         for arg in invalid_args:
           delattr(buildable, arg)
       else:
+        # Leave `buildable` as it was: undo the early signature update.
+        object.__setattr__(buildable, '__signature__', old_signature)
+        object.__setattr__(buildable, '__signature_info__', old_signature_info)
         raise TypeError(
             f'Cannot switch to {new_callable} (from '
             f'{buildable.__fn_or_cls__}) because the Buildable would '
